@@ -142,10 +142,16 @@ pub fn channel_join_confirm(result: u8, user_id: u16, requested: u16, channel: u
 }
 
 pub fn send_data_indication(initiator: u16, channel: u16, data: &[u8]) -> Vec<u8> {
+    send_data_indication_prio(initiator, channel, data, 0x70)
+}
+
+/// the same with the dataPriority / segmentation byte chosen: priority in the two top bits (00 top, 01 high,
+/// 10 medium, 11 low), then begin and end flags (0x30 = begin + end)
+pub fn send_data_indication_prio(initiator: u16, channel: u16, data: &[u8], prio_seg: u8) -> Vec<u8> {
     let mut w = W::new();
     w.u8(26 << 2);
     per::write_integer16(&mut w, initiator, 1001);
-    w.u16be(channel).u8(0x70);
+    w.u16be(channel).u8(prio_seg);
     per::write_length(&mut w, data.len() as u16);
     w.bytes(data);
     w.done()
